@@ -46,7 +46,7 @@ for line in open(res):
         "needs_to_manifest": section(readme, r"need|manifest") or "see README.agent.md",
         "checks": checks, "origin": origin,
         "confirmed": {"demo_unchanged_tree": f"exit {dc}", "demo_changed_tree": f"exit {dm}",
-                      "tests_with_change": "sub-agent: whole suite, unedited: 106 passed (see README.agent.md)",
+                      "tests_with_change": extra.get("_tests_text", "sub-agent: whole suite, unedited: 106 passed (see README.agent.md)"),
                       "how": f"scratch copy of /repo + patch.diff outside /repo and /verif; demo.py on both trees; ./check <Cxx> quick with VMON_REPO=<copy> ({label})"},
     }
     if name in extra and extra[name].get("strengthening"):
